@@ -28,10 +28,12 @@ const (
 	evToggleFail
 	evTick
 	evRestart
+	evRxDuplicate // the most recently received bundle arrives once more
+	evOwnBack     // a bundle this node originated comes back from a peer
 	nEvents
 )
 
-var evNames = []string{"submit", "rx_with_copies", "up_relay", "up_dest", "down", "toggle_fail", "retry_tick", "restart"}
+var evNames = []string{"submit", "rx_with_copies", "up_relay", "up_dest", "down", "toggle_fail", "retry_tick", "restart", "rx_duplicate", "own_bundle_comes_back"}
 
 type mb struct {
 	pid      string
@@ -56,6 +58,8 @@ type scenario struct {
 	hist    []string
 	viol    bool
 	seen    int
+	lastWire []byte
+	lastFrom string
 }
 
 func (sc *scenario) algo() string {
@@ -143,6 +147,24 @@ func (sc *scenario) apply(ev int, rng *report.Rand) {
 		sc.hist[len(sc.hist)-1] = fmt.Sprintf("rx_with_copies(%d)", held)
 		if err := sc.s.Deliver(from, wire); err != nil {
 			delete(sc.bundles, pid)
+		} else {
+			sc.lastWire, sc.lastFrom = wire, from
+		}
+	case evRxDuplicate:
+		if sc.lastWire != nil {
+			if from := sc.firstUp(); from != "" && from != "far" {
+				_ = sc.s.Deliver(from, sc.lastWire)
+			}
+		}
+	case evOwnBack:
+		// the first transmitted copy of a locally originated bundle is handed back by a peer
+		if from := sc.firstUp(); from != "" && from != "far" {
+			for _, rec := range sc.s.Sends() {
+				if b := sc.bundles[rec.PID]; b != nil && b.local && rec.ParseErr == "" {
+					_ = sc.s.Deliver(from, rec.Bytes)
+					break
+				}
+			}
 		}
 	case evUpRelay:
 		sc.relays++
